@@ -4,17 +4,18 @@ and combined with the C01 map refinement.
 
 Instantiation: the trie state (everything reachable from the `root` field — its location `rootF` is resolved from the regenerated table by the field's declared type) is
 one location holding the C01 model state; `Insert`/`Delete` are W-mode operations that read it, apply the C01
-model step and write it back; `GetNodeValueRaw`/`Iterate` are R-mode operations that read it
-(`Verif.C16Map.opProg`). These programs perform only accesses of the regenerated table `mptScope` in the lock mode the
+model step and write it back; `GetNodeValueRaw`/`Iterate`/`GetRoot`/`SaveChanges` are R-mode operations that read it
+(`Verif.C16Map.opProg`; `GetRoot` returns C02's `root H` of the trie it reads, `SaveChanges` returns without changing it). These programs perform only accesses of the regenerated table `mptScope` in the lock mode the
 table records for the real methods (checked below by `decide` over the table). `SetVersion` (`Op.ver`) is outside
-the claimed scope.
+the claimed scope. The change-set reads (`GetChanges`/`GetDeletes`/`GetChangeCount`) and the merges have no sequential
+specification here: their linearizability is checked by the Go suite only (checks/C16.json).
 -/
 import Verif.Props.C16
 import Verif.Lemmas.C16Map
 
 namespace Verif.Props.C16
 open Verif.RW Verif.Mpt Verif.Gen.LockFacts Verif.LockTable Verif.C16Map
-open Verif.Props.C01 (Op MState Obs mrun srun emptySpec ObsListRel C01_refinement)
+open Verif.Props.C01 (MState Obs emptySpec)
 
 /-- the three accesses the instantiated operations perform are accesses of the regenerated table, in the lock
 mode recorded there: `root` written and read under the write lock (`Insert`/`Delete`), read under the read lock -/
@@ -24,60 +25,81 @@ theorem trie_accesses_in_table :
     ({ loc := rootF, write := false, sub := 0, held := some .R } : FAcc) ∈ footprint mptScope := by
   decide +kernel
 
-/-- **C16 for the trie model.** Any number of threads run arbitrary scripts of `ins` / `del` / `get` / `iter`
-operations on one shared trie, started empty, under ANY schedule admitted by the RW lock. For every reachable
-configuration there is a list `lops` of the operations that have acquired the lock so far — each taken from some
-thread's script, in lock-acquisition order (`c.lin`), an operation entering it between its call and its return —
-such that
-1. the results are those of the SEQUENTIAL C01 model run of `lops`, and every thread's returned results are its own
-   entries of that list in order (the entry of an operation still running being the last);
-2. hence (C01 map refinement) the results agree one by one with the partial-map specification run on `lops`;
+/-- the lock modes of the model operations are the ones the table records for the real methods; `GetRoot` only
+reads `root`, `SaveChanges` does not touch `root` at all (it reads the change collector) -/
+theorem model_modes_match_table :
+    mpt_Insert.lock = .write ∧ mpt_Delete.lock = .write ∧ mpt_GetNodeValueRaw.lock = .read ∧ mpt_Iterate.lock = .read ∧
+    mpt_GetRoot.lock = .read ∧ mpt_SaveChanges.lock = .read ∧
+    mpt_GetRoot.accesses.map (fun a => (a.fid, a.kind, a.mode)) = [(rootF, .read, .read)] ∧
+    (mpt_SaveChanges.accesses.all fun a => a.fid != rootF && !plainWriteKind a.kind) = true ∧
+    modeOfOp .root = .R ∧ modeOfOp .save = .R ∧ (∀ p b, modeOfOp (.base (.ins p b)) = .W) ∧
+    (∀ p, modeOfOp (.base (.del p)) = .W) ∧ (∀ p, modeOfOp (.base (.get p)) = .R) ∧ modeOfOp (.base .iter) = .R := by
+  refine ⟨by decide +kernel, by decide +kernel, by decide +kernel, by decide +kernel, by decide +kernel,
+    by decide +kernel, by decide +kernel, by decide +kernel, rfl, rfl, fun _ _ => rfl, fun _ => rfl, fun _ => rfl, rfl⟩
+
+/-- **C16 for the trie model.** Any number of threads run arbitrary scripts of `ins` / `del` / `get` / `iter` /
+`GetRoot` / `SaveChanges` operations on one shared trie, started empty at version `v0`, under ANY schedule admitted by
+the RW lock. For every reachable configuration there is a list `lops` of the operations that have acquired the lock so
+far — each taken from some thread's script, in lock-acquisition order (`c.lin`), an operation entering it between its
+call and its return — such that
+1. the results are those of the SEQUENTIAL model run of `lops` (`trun`), and every thread's returned results are its
+   own entries of that list in order (the entry of an operation still running being the last);
+2. hence they agree one by one with the partial-map specification run on `lops` (`TRel`): a C01 operation returns what
+   the map returns; **`GetRoot` returns the canonical root of the map content at its linearization point** — the
+   `root H` (C02) of every canonical trie that reads as that map; `SaveChanges` leaves the map as it is;
 3. whenever no writer is inside its critical section — in particular at the end — the shared trie reads as the map
-   the specification ends with (final content = sequential execution of the completed updates);
+   the specification ends with (final content = sequential execution of the completed updates) and
+   **its root is the root of every canonical trie of that map** (root equality with the sequential execution);
 4. no configuration has a race. -/
-theorem C16_map (maxSize v0 : Nat) (ops : Tid → List Op) (hnv : ∀ t op, op ∈ ops t → NoVer op)
-    (c : Config MState Obs)
-    (hr : Reachable (fun t => (ops t).map (opProg rootF maxSize)) (fun _ => Verif.Props.C01.init v0) c) :
-    ∃ lops : List Op, (∀ op, op ∈ lops → ∃ t, op ∈ ops t) ∧
-      c.lin.map (·.pred) = (mrun maxSize (Verif.Props.C01.init v0) lops).2 ∧
+theorem C16_map (H : Bytes → Bytes) (maxSize v0 : Nat) (ops : Tid → List TOp) (hnv : ∀ t op, op ∈ ops t → NoVer op)
+    (c : Config MState TObs)
+    (hr : Reachable (fun t => (ops t).map (opProg rootF H maxSize)) (fun _ => Verif.Props.C01.init v0) c) :
+    ∃ lops : List TOp, (∀ op, op ∈ lops → ∃ t, op ∈ ops t) ∧
+      c.lin.map (·.pred) = (trun H maxSize (Verif.Props.C01.init v0) lops).2 ∧
       (∀ t, (c.lin.filter (fun e => e.tid == t)).map (·.pred) = (c.thr t).done ++ (c.thr t).pred.toList) ∧
-      ObsListRel (c.lin.map (·.pred)) (srun maxSize emptySpec lops).2 ∧
-      ((∀ t, (c.thr t).main ≠ some .W) → ∀ q, lookup (c.mem rootF).t q = (srun maxSize emptySpec lops).1 q) ∧
+      TRel H v0 maxSize emptySpec lops (c.lin.map (·.pred)) ∧
+      ((∀ t, (c.thr t).main ≠ some .W) →
+        (∀ q, lookup (c.mem rootF).t q = tsfinal maxSize emptySpec lops q) ∧
+        (∀ t', WF t' → AllOrigin v0 t' → (∀ q, lookup t' q = tsfinal maxSize emptySpec lops q) →
+          root H (c.mem rootF).t = root H t')) ∧
       ¬ Race c := by
   obtain ⟨hRW, hWW, hRR⟩ := trie_accesses_in_table
-  have hmem : ∀ t p, p ∈ (ops t).map (opProg rootF maxSize) → ∃ op, op ∈ ops t ∧ p = opProg rootF maxSize op := by
+  have hmem : ∀ t p, p ∈ (ops t).map (opProg rootF H maxSize) → ∃ op, op ∈ ops t ∧ p = opProg rootF H maxSize op := by
     intro t p hp
     simp only [List.mem_map] at hp
     obtain ⟨op, hop, rfl⟩ := hp
     exact ⟨op, hop, rfl⟩
   -- the instantiated programs satisfy the hypotheses of `lin_of_table`
-  have hconf : ∀ t p, p ∈ (ops t).map (opProg rootF maxSize) → Conf (footprint mptScope) none p := by
+  have hconf : ∀ t p, p ∈ (ops t).map (opProg rootF H maxSize) → Conf (footprint mptScope) none p := by
     intro t p hp
     obtain ⟨op, _, rfl⟩ := hmem t p hp
-    cases op <;> simp [opProg, modeOfOp, body, isUpdate, Conf, hRW, hWW, hRR]
-  have hshape : ∀ t p, p ∈ (ops t).map (opProg rootF maxSize) → ∃ m k, p = .acq m k ∧ BodyOK k := by
+    rcases op with (_ | _ | _ | _ | _) | _ | _ <;> simp [opProg, modeOfOp, body, isUpdate, Conf, hRW, hWW, hRR]
+  have hshape : ∀ t p, p ∈ (ops t).map (opProg rootF H maxSize) → ∃ m k, p = .acq m k ∧ BodyOK k := by
     intro t p hp
     obtain ⟨op, _, rfl⟩ := hmem t p hp
-    exact ⟨_, _, rfl, bodyOK rootF maxSize op⟩
-  have hobl : ∀ t p, p ∈ (ops t).map (opProg rootF maxSize) → Oblivious (bkOf (footprint mptScope)) p := by
+    exact ⟨_, _, rfl, bodyOK rootF H maxSize op⟩
+  have hobl : ∀ t p, p ∈ (ops t).map (opProg rootF H maxSize) → Oblivious (bkOf (footprint mptScope)) p := by
     intro t p hp
     obtain ⟨op, _, rfl⟩ := hmem t p hp
-    cases op <;> simp [opProg, body, isUpdate, Oblivious] <;>
+    rcases op with (_ | _ | _ | _ | _) | _ | _ <;> simp [opProg, body, isUpdate, Oblivious] <;>
       exact fun hb => absurd hb root_not_bookkeeping
   obtain ⟨hres, hper, hfin, hrace⟩ := lin_of_table mptScope mpt_table_ok _ _ hconf hshape hobl c hr
   -- the log consists of bodies of operations of the scripts
   obtain ⟨s, ex⟩ := hr
-  have oinv := (OpsInv.init (L := rootF) (maxSize := maxSize) (P := fun op => NoVer op ∧ ∃ t, op ∈ ops t) ops
+  have oinv := (OpsInv.init (L := rootF) (H := H) (maxSize := maxSize) (P := fun op => NoVer op ∧ ∃ t, op ∈ ops t) ops
     (fun _ => Verif.Props.C01.init v0) (fun t op hop => ⟨hnv t op hop, t, hop⟩)).exec ex
   obtain ⟨lops, hlops, hprogs⟩ := OpsInv.log_ops c.lin oinv.lin
-  have hseq := seqRun_mrun rootF maxSize c.lin lops (fun _ => Verif.Props.C01.init v0) hprogs (fun op hop => (hlops op hop).1)
-  have href := C01_refinement maxSize v0 lops
+  have hseq := seqRun_mrun rootF H maxSize c.lin lops (fun _ => Verif.Props.C01.init v0) hprogs (fun op hop => (hlops op hop).1)
+  have hrel := trun_rel H maxSize v0 lops (tinv_init v0) (fun op hop => (hlops op hop).1)
   refine ⟨lops, fun op hop => (hlops op hop).2, ?_, hper, ?_, ?_, hrace⟩
   · rw [← hres, hseq.1]
-  · rw [← hres, hseq.1]; exact href.1
-  · intro hnw q
+  · rw [← hres, hseq.1]; exact hrel.1
+  · intro hnw
     have hag := hfin hnw rootF root_not_bookkeeping
-    rw [← hag, hseq.2]
-    exact href.2 q
+    have hst : c.mem rootF = (trun H maxSize (Verif.Props.C01.init v0) lops).1 := by rw [← hag, hseq.2]
+    obtain ⟨hwf, hao, _, hl⟩ := hrel.2
+    refine ⟨fun q => by rw [hst]; exact hl q, fun t' hw' ho' hl' => ?_⟩
+    rw [hst]
+    exact Verif.Props.C02.C02_root_of_content H v0 _ t' hwf hw' hao ho' (fun q => by rw [hl q, hl' q])
 
 end Verif.Props.C16
